@@ -206,6 +206,9 @@ def run_calls(case):
         with mk_machine(io, ash)() as m:
             io.reactor = None
             io.accept = list(case["accept"])
+            if case.get("slow"):
+                m.ch.slow_send_delay = case["slow"][0] / sc.UNIT
+                m.ch.slow_send_chunksize = case["slow"][1]
             base_written = len(io.written)
             left = io.unread()
             io.pend = []
@@ -406,6 +409,24 @@ def shell_argv(shell, line: bytes):
         return words
     except Exception:  # noqa
         return None
+
+
+class SlowExecSuite(ExecSuite):
+    """the same calls on a channel configured for slow sending, over a transport that accepts fewer bytes than offered"""
+    name = "exec_slow"
+    model_fn = "lx_model_slow"
+
+    def coq_input(self, case):
+        calls = coq.lst(lambda cs: call_coq(*cs), list(zip(case["calls"], case["_stages"])), "(lx_call * list stage)")
+        return f"({coq.boolean(case['ash'])}, {coq.natlist(case['accept'])}, ({coq.z(case['slow'][0])}, {coq.nat(case['slow'][1])}), {calls})"
+
+    def gen(self, tier, rng):
+        import itertools as _it
+        for case in _it.islice(super().gen(tier, rng), 150 if tier == "quick" else 1000):
+            case["slow"] = [rng.choice([0, 1, 16]), rng.choice([1, 7, 32, 64])]
+            case["accept"] = [rng.randint(1, 40) for _ in range(rng.randint(0, 12))]
+            case["maxgap"] = 0
+            yield case
 
 
 class QuoteSuite(Suite):
@@ -878,7 +899,7 @@ class InitSuite(Suite):
                    "seed": rng.randrange(1 << 30)}
 
 
-SUITES = [QuoteSuite(), ShLineSuite(), TtySuite(), InitSuite(), ExecSuite(), E2ESuite()]
+SUITES = [QuoteSuite(), ShLineSuite(), TtySuite(), InitSuite(), ExecSuite(), SlowExecSuite(), E2ESuite()]
 
 
 def extra_obligations(tier):
